@@ -43,6 +43,10 @@ def other_corpus(rng, n_notes):
     out = []
     structural_tandems = {'*staff1', '*staff2', '*staff1/2', '*xywh-1:10,20,30,40'}
     out += [('tandem', x) for x in G.TANDEMS if x not in structural_tandems]
+    # interpretations with a parameter the kern grammar may or may not know (*above:2, *centered:1, *below:12, *MM120x ...): a non-kern
+    # spine keeps the whole cell
+    out += [('tandem', x + sfx) for x in G.TANDEMS if x not in structural_tandems and not x.startswith('*xywh')
+            for sfx in (':2', ':12', 'x', '.5')]
     out += [('text', x) for x in G.WORDS + G.HOSTILE_WORDS + G.SEPARATOR_WORDS]
     # a character outside the lexer's alphabet next to a structural token: the cell is free text as a whole
     for u in ('§', '€', 'ß', 'ø', '¿', '日', 'ü', '–', '“', '\x07'):
